@@ -110,7 +110,7 @@ P = {
  "C20": dict(
   tech="byte-template comparison of the real IPHC/NHC compression (compressed_packet_size + the emit calls ipv6_to_sixlowpan makes) and decompression (sixlowpan_to_ipv6) for enumerated shapes with all field values symbolic; dispatch_ieee802154_frag and process_sixlowpan_fragment one-call harnesses",
   text="For ten address/port shapes in the quick tier (link-local derived from short/extended link addresses, global, multicast 8/32/48/128-bit forms, UDP ports uncompressed/8-bit/4-bit, ICMPv6/UDP/TCP, in-line hop limit and next header) and 18 more in the thorough tier: the compressed bytes equal an RFC 6282 template written in the harness, the declared size equals the bytes written, and decompressing the template yields exactly the IPv6 datagram (every header byte compared at a symbolic index); FRAGN frames carry the right size/tag/offset and bytes; a FRAG1 that completes its datagram is delivered by the same call; malformed sizes and addressing are dropped without panic.",
-  note="Payload <= 4 octets; whole ipv6_to_sixlowpan / dispatch_ieee802154 calls and two-fragment reassembly sequences exceed 8 GB and are thorough-tier only (not all measured). One known finding (the in-line UDP checksum is not restored on decompression). Nine defects fixed.",
+  note="Payload <= 4 octets; whole ipv6_to_sixlowpan calls are thorough-tier only; dispatch_ieee802154 with fragmentation, two-call reassembly sequences through process_sixlowpan_fragment and the busy-fragmenter scenario ran out of 16 GB and are NOT part of the claim (any-order reassembly is decided for the shared PacketAssembler by C12's induction harnesses; the 6LoWPAN-specific steps by the one-call FRAG1 and FRAGN-transmit harnesses). One known finding (the in-line UDP checksum is not restored on decompression). Nine defects fixed.",
   ref="DESIGN.md 5/C20, 14"),
 }
 
